@@ -182,6 +182,15 @@ package xmpp
 // result IQ carrying the request id. Ready is never reported with an error.
 //@ func bind$3
 //@   noswallow[C04]
+// the frame assumed of every feature's Negotiate callback (funcfield
+// StreamFeature.Negotiate), proved here for resource binding
+//@   callsite foreign#*
+//@     preserves session.state, session.negotiated, session.features, session.in.d
+//@   callsite (*Session).TokenReader#1
+//@     preserves session.state, session.negotiated, session.features, session.in.d
+//@   callsite (*Session).TokenWriter#1
+//@     preserves session.state, session.negotiated, session.features, session.in.d
+//@   ensures[C01,C02,C04] unchanged(session.state) && unchanged(session.negotiated) && unchanged(session.features) && unchanged(session.in.d)
 //@   ghost updated bool = false
 //@   callsite (*Session).UpdateAddr#1
 //@     assert[C12] resp.ID == reqID && resp.Type == "result" && arg1 == resp.Bind.JID
@@ -193,12 +202,14 @@ package xmpp
 // application is an error reply and is not reported as a bound session
 //@   ghost refused bool = false
 //@   callsite (*bindIQ).WriteXML#1
+//@     preserves session.state, session.negotiated, session.features, session.in.d
 //@     assert[C12] arg0.IQ.ID == iqid
 //@     assert[C12,C04] ok ==> arg0.IQ.Type == "error" && arg0.Err != nil
 //@     assert[C12,C04] !ok ==> arg0.IQ.Type == "result" && arg0.Err == nil && arg0.Bind.JID == j
 //@     after: refused = ok
 //@   ensures[C12,C04] refused ==> result2 != nil && result0 & Ready == 0
 //@   callsite (*bindIQ).WriteXML#2
+//@     preserves session.state, session.negotiated, session.features, session.in.d
 //@     assert[C12] arg0.Bind.Resource == want && arg0.IQ.Type == "set" && arg0.IQ.ID == reqID
 //@   ghost st0 SessionState
 //@   callsite (*Session).State#1
